@@ -139,9 +139,23 @@ def gen_lits():
     if not m: raise ExtractError("locator 'admin db strategy' not found")
     emit("adminStrategy", m.group(1).lower(), "bo.rs Databases::new admin database strategy")
     body, _ = fn_body("storage/disk.rs", r"fn load_db_metadata_from_disk_or_empty\b[^{]*\{", "load_db_metadata_from_disk_or_empty")
-    m = re.search(r"DatabaseMataData::new\(dbs\.map\.read\(\)\.unwrap\(\)\.len\(\), ConsensuStrategy::(\w+)\)", body)
+    m = re.search(r"DatabaseMataData::new\(\s*([^,]+?),\s*ConsensuStrategy::(\w+)\)\s*\}\s*\}\s*$", body)
     if not m: raise ExtractError("locator 'default strategy without metadata' not found")
-    emit("noMetaStrategy", m.group(1).lower(), "storage/disk.rs strategy of a database restored without metadata")
+    emit("noMetaStrategy", m.group(2).lower(), "storage/disk.rs strategy of a database restored without metadata")
+    # how a new database id is derived (C16): both sites and the rule itself, as source text
+    emit("noMetaIdExpr", re.sub(r"\s+", "", m.group(1)), "storage/disk.rs id of a database restored without metadata")
+    body, _ = fn_body("db_ops.rs", r"pub fn create_temp_db\b[^{]*\{", "create_temp_db")
+    m = re.search(r"DatabaseMataData::new\(\s*([^,]+?),\s*strategy\s*\)", body)
+    if not m: raise ExtractError("locator 'create_temp_db id' not found")
+    emit("createDbIdExpr", re.sub(r"\s+", "", m.group(1)), "db_ops.rs create_temp_db database id")
+    # the start-up decision of src/bin/main.rs (the harness mirrors these statements by hand)
+    with open(os.path.join(REPO, "src", "bin", "main.rs"), encoding="utf-8") as f: mainrs = f.read()
+    m = re.search(r"\) = channel\(100\);(?!.*\) = channel\(100\);)(.*?)let dbs = nundb::db_ops::create_init_dbs\(", mainrs, re.S)
+    if not m: raise ExtractError("locator 'start-up decision' not found in src/bin/main.rs")
+    stmts = re.sub(r"log::\w+!\([^;]*\);", "", blank(mainrs)[m.start():m.end()])
+    emit("startupDecision", re.sub(r"\s+", "", stmts), "src/bin/main.rs start-up decision (log statements removed)")
+    body, _ = fn_body("bo.rs", r"pub fn next_database_id\b[^{]*\{", "next_database_id")
+    emit("nextDbIdBody", re.sub(r"\s+", "", body), "bo.rs Databases::next_database_id")
 
     # hand-listed literals of the request path (tied by correspondence, not extracted)
     hand = {
